@@ -202,6 +202,20 @@ CHECKS = {
   note='trusted: PkgConfLang.tla (sh-style splitting of pkg-config output), pkgconf 1.8.1 as the tool, the version '
        'grid (integers and halves); non-ASCII bytes are not generated (pkg-config escapes them bytewise)',
   design='5/C17'),
+ 'C14': dict(
+  technique='TLA+ design model of library forwarding + keep-first de-duplication composed with an environment model of '
+            'a single-pass archive linker (Link.tla), model-checked with TLC over every DAG within the bound; '
+            'TLC-generated DAGs (Link_Gen.tla) built with the real bfg9000, make, gcc, ar, ld and run through the real '
+            'loader, before and after moving the build directory; traces validated by TLC (Link_Trace.tla)',
+  text='TLC enumerates all DAGs of three two-object libraries (static/shared, any declared dependencies, any listing '
+       'order of the executable, either object called) and reports exactly the configurations whose final link the '
+       'design model predicts to fail; generated DAGs (incl. dual-use libraries under three library modes, nested '
+       'different output directories, link options to be forwarded) are built with the real toolchain, the program '
+       'must print the value the DAG defines, in place with an empty environment and again after the build '
+       'directory was renamed.',
+  note='trusted: the single-pass linker model (used for the design-level prediction and the known-finding key '
+       'only; the verdict comes from the real ld), gcc/ld/loader of the sandbox, TLC',
+  design='5/C14'),
 }
 
 NOT_YET = {}
